@@ -439,7 +439,7 @@ def sprepost(A, B):
     return Qobj(_data.kron_transpose(B.data, A.data),
                 dims=dims,
                 superrep='super',
-                isherm=A._isherm and B._isherm,
+                isherm=(A._isherm and B._isherm) or None,
                 copy=False)
 
 
